@@ -48,6 +48,22 @@ func probeMachine(c *cpu.CPU6502, cfg *emuconfig.Config) string {
 		faultNext := protect(func() { lm.LoadLarge(total) })
 		memsig = fmt.Sprintf("%v%v", okLast, faultNext)
 	}
+	// ports: what appears on stdout when 260 bytes are stored to each configured port address, in key order
+	keys := []int{}
+	for k := range cfg.IoAddrConfig {
+		keys = append(keys, int(k))
+	}
+	sort.Ints(keys)
+	out, _ := captureStdout(func() {
+		for _, k := range keys {
+			a := uint16(cfg.IoMask)<<8 | uint16(k)
+			for i := 0; i < 260; i++ {
+				v := uint8(i*7 + 3)
+				protect(func() { c.Mem.Store(a, v) })
+			}
+		}
+	})
+	// (the ports were probed first: the coprocessor probe below may store to an address that carries a port)
 	// coprocessor units (base 0x0200..: plain RAM on every machine)
 	b := cfg.F256MCoprocBase
 	mul, div := "0", "0"
@@ -63,21 +79,6 @@ func probeMachine(c *cpu.CPU6502, cfg *emuconfig.Config) string {
 		c.Mem.Store(b+4, 4)
 		if c.Mem.Load(b+0x14) == 5 {
 			div = "1"
-		}
-	})
-	// ports: what appears on stdout when 260 bytes are stored to each configured port address, in key order
-	keys := []int{}
-	for k := range cfg.IoAddrConfig {
-		keys = append(keys, int(k))
-	}
-	sort.Ints(keys)
-	out, _ := captureStdout(func() {
-		for _, k := range keys {
-			a := uint16(cfg.IoMask)<<8 | uint16(k)
-			for i := 0; i < 260; i++ {
-				v := uint8(i*7 + 3)
-				protect(func() { c.Mem.Store(a, v) })
-			}
 		}
 	})
 	ps := hex.EncodeToString(out)
@@ -203,7 +204,13 @@ func configStream(seed uint64, n int) {
 			if r.Chance(60) {
 				p = ports[r.Intn(10)]
 			}
-			io[uint8(0xD0+r.Intn(8))] = p
+			off := uint8(0xD0 + r.Intn(8))
+			if r.Chance(25) {
+				// a port on one of the coprocessor's RESULT registers (when the I/O page is the coprocessor's page):
+				// the port layer is the outer one, the coprocessor writes its results to the memory below both
+				off = uint8(0x10 + r.Intn(4))
+			}
+			io[off] = p
 		}
 		flags := []uint8{0, 1, 4, 5, 2, 8, 7}[r.Intn(7)]
 		emit(configCase(m, s, asms[r.Intn(4)], uint8([]int{0x2D, 0x10, 0x7F, 0x00, 0xFF, 0x02}[r.Intn(6)]), io, flags, 0x0200))
